@@ -83,14 +83,86 @@ def short(d: str, n: int = 12) -> str:
     return d[:n]
 
 
+def plain(obj):
+    """JSON-able copy with floats kept as floats (numpy scalars/arrays converted)."""
+    import numpy as np
+
+    if isinstance(obj, bool) or obj is None or isinstance(obj, (int, str, float)):
+        return obj
+    if isinstance(obj, np.floating):
+        return float(obj)
+    if isinstance(obj, np.integer):
+        return int(obj)
+    if isinstance(obj, np.ndarray):
+        return [plain(x) for x in obj.tolist()]
+    if isinstance(obj, (list, tuple)):
+        return [plain(x) for x in obj]
+    if isinstance(obj, dict):
+        return {str(k): plain(v) for k, v in obj.items()}
+    return repr(obj)
+
+
+def rounded(obj, sig: int = 8):
+    """floats rounded to `sig` significant digits — only for counting distinct histories, never for verdicts."""
+    if isinstance(obj, float):
+        return float(f"{obj:.{sig}g}") if obj == obj and abs(obj) != float("inf") else repr(obj)
+    if isinstance(obj, list):
+        return [rounded(x, sig) for x in obj]
+    if isinstance(obj, dict):
+        return {k: rounded(v, sig) for k, v in obj.items()}
+    return obj
+
+
+RTOL = 1.0e-9
+ATOL = 1.0e-9
+
+
+def close(a, b, rtol: float = RTOL, atol: float = ATOL, path: str = ""):
+    """Structural equality with a float tolerance.  Returns (True, "") or (False, path of the first difference).
+    The numerical libraries underneath the repository (LAPACK calls inside pygfunction's pipe models) return results that
+    vary in the last bits with the heap layout of the process, so 'identical' is decided at 1e-9, not bit for bit."""
+    if isinstance(a, bool) or isinstance(b, bool) or a is None or b is None or isinstance(a, str) or isinstance(b, str):
+        return (True, "") if a == b and type(a) is type(b) else (False, path or "/")
+    if isinstance(a, (int, float)) and isinstance(b, (int, float)):
+        if a == b:
+            return True, ""
+        if isinstance(a, int) and isinstance(b, int):
+            return False, path or "/"
+        if a != a or b != b:
+            return ((a != a) and (b != b)), path
+        return (abs(a - b) <= atol + rtol * max(abs(a), abs(b))), (path or "/")
+    if isinstance(a, list) and isinstance(b, list):
+        if len(a) != len(b):
+            return False, f"{path}/len({len(a)} vs {len(b)})"
+        for i, (x, y) in enumerate(zip(a, b)):
+            ok, where = close(x, y, rtol, atol, f"{path}/{i}")
+            if not ok:
+                return False, where
+        return True, ""
+    if isinstance(a, dict) and isinstance(b, dict):
+        if set(a) != set(b):
+            return False, f"{path}/keys({sorted(set(a) ^ set(b))[:4]})"
+        for k in a:
+            ok, where = close(a[k], b[k], rtol, atol, f"{path}/{k}")
+            if not ok:
+                return False, where
+        return True, ""
+    return (a == b), (path or "/")
+
+
 class EventLog:
-    """(seq, op, argument digest, outcome digest); the run digest is the hash of the log."""
+    """(seq, op, argument digest, outcome digest of the 8-significant-digit rounding); `raw` keeps the unrounded outcomes
+    for the determinism self-test, which compares them with `close`.  The run digest is the hash of the log and is used
+    only to count distinct histories."""
 
     def __init__(self):
         self.events = []
+        self.raw = []
 
     def add(self, op: str, arg, outcome):
-        self.events.append([len(self.events), op, short(digest(arg), 16), short(digest(outcome), 16)])
+        o = plain(outcome)
+        self.events.append([len(self.events), op, short(digest(arg), 16), short(digest(rounded(o)), 16)])
+        self.raw.append(o)
 
     def run_digest(self) -> str:
         return digest(self.events)
